@@ -12,11 +12,32 @@ let child kind : z list -> z list =
   | "addcr" -> (fun l -> l @ [z_of_int 13])
   | _ -> failwith "child"
 
+(* children that break the line structure, as functions on the whole stream *)
+let split_lines (l : z list) : z list list =
+  let rec go cur acc = function
+    | [] -> List.rev (if cur = [] then acc else List.rev cur :: acc)
+    | c :: r -> if int_of_z c = 10 then go [] (List.rev cur :: acc) r else go (c :: cur) acc r in
+  go [] [] l
+let join_lines (ls : z list list) : z list = List.concat (List.map (fun l -> l @ [z_of_int 10]) ls)
+let stream_child kind : z list -> z list =
+  match kind with
+  | "drop2" -> (fun inp -> join_lines (List.filteri (fun i _ -> i <> 1) (split_lines inp)))
+  | "extra" -> (fun inp -> join_lines (split_lines inp) @ [z_of_int 88; z_of_int 10])
+  | _ -> failwith "stream child"
+
 let () =
   iter_lines (fun line ->
       match split_ws line with
       | ["B"; kind; inp] ->
         (match b64filter_tool (child kind) (unh inp) with
+         | BOk o -> print_endline ("OK " ^ hx o)
+         | BBadInput -> print_endline "ABORT bad-input"
+         | BUB -> print_endline "UB"
+         | BChildShort -> print_endline "ABORT child-short"
+         | BSurplus -> print_endline "ABORT surplus"
+         | BFuel -> print_endline "FUEL")
+      | ["BS"; kind; inp] ->
+        (match b64filter_tool_stream (stream_child kind) (unh inp) with
          | BOk o -> print_endline ("OK " ^ hx o)
          | BBadInput -> print_endline "ABORT bad-input"
          | BUB -> print_endline "UB"
